@@ -108,7 +108,7 @@ def run(case):
         mat = make_material(case["material"])
         solver = make_solver(case.get("params"))
         solver.setup_tube(tube)
-        state = solver.init_state(tube, mat, i=0 if "temperature" in tube.results else None)
+        state = solver.init_state(tube, mat, i=0 if ("temperature" in tube.results and case.get("init") != "noindex") else None)
         solver.dump_state(tube, 0, state)
         dtop = [fl(d) for d in case["dtop"]]
         forces, stiffs, asyms, trials = [hx(state.force)], [hx(state.stiffness)], [0.0], {}
